@@ -130,7 +130,8 @@ Reply(x, ok, new) ==   \* Hand._res for a unit released since the last load
 OldReply(x) ==      \* a result of work released before the last load: ignored once the new graph is built; while the
                     \* load is still under way (farm cleared, graph not yet rebuilt) it is applied to the graph that is about to be discarded
     /\ \/ /\ x \in old /\ old' = old \ {x} /\ anc' = anc
-          /\ Apply(x, TRUE, FALSE)
+          /\ IF x \in que THEN Apply(x, TRUE, FALSE)                  \* schedule.find: "Could not find job" otherwise
+             ELSE UNCHANGED <<todo, doing, hand, que, status, arch>>
        \/ /\ x \in anc /\ anc' = anc \ {x} /\ old' = old
           /\ UNCHANGED <<todo, doing, hand, que, status, arch>>
     /\ fire' = NoFire
